@@ -2,6 +2,7 @@ import networkx as nx
 import flowpaths.stdag as stdag
 import flowpaths.abstractpathmodeldag as pathmodel
 import flowpaths.utils as utils
+import flowpaths.utils.graphutils as gu
 import flowpaths.nodeexpandeddigraph as nedg
 import copy
 import math
@@ -260,11 +261,24 @@ class kMinPathError(pathmodel.AbstractPathModelDAG):
         # (with given weights several of them can pile up on one edge: errors and slacks can reach their sum)
         self.w_max = max(self.w_max, sum(self.solution_weights_superset or [0]))
 
-        self.path_length_ranges = path_length_ranges
-        self.path_length_factors = path_length_factors
+        # (own copies, as plain Python numbers: the lists are read again after solve(), and later edits of the caller's lists must not reach
+        # the model; numpy integers of a small width would wrap around in the big-M of the piecewise encoding)
+        try:
+            self.path_length_ranges = [[gu.plain_number(bound) for bound in length_range] for length_range in path_length_ranges]
+            self.path_length_factors = [gu.plain_number(factor) for factor in path_length_factors]
+        except TypeError:
+            utils.logger.error(f"{__name__}: path_length_ranges must be a list of [lower, upper] pairs and path_length_factors a list of numbers.")
+            raise ValueError("path_length_ranges must be a list of [lower, upper] pairs and path_length_factors a list of numbers.")
         if len(self.path_length_ranges) != len(self.path_length_factors):
             utils.logger.error(f"{__name__}: The number of path length ranges must be equal to the number of error scale factors.")
             raise ValueError("The number of path length ranges must be equal to the number of error scale factors.")
+        is_finite_number = lambda x: isinstance(x, (int, float)) and not isinstance(x, bool) and math.isfinite(x)
+        if any(len(length_range) != 2 or not all(is_finite_number(bound) for bound in length_range) or length_range[0] > length_range[1] for length_range in self.path_length_ranges):
+            utils.logger.error(f"{__name__}: every path length range must be a pair [lower, upper] of finite numbers with lower <= upper.")
+            raise ValueError("Every path length range must be a pair [lower, upper] of finite numbers with lower <= upper.")
+        if any(not is_finite_number(factor) or factor < 0 for factor in self.path_length_factors):
+            utils.logger.error(f"{__name__}: every path length factor must be a finite non-negative number.")
+            raise ValueError("Every path length factor must be a finite non-negative number.")
         if len(self.path_length_factors) > 0 and self.weight_type == float:
             utils.logger.error(f"{__name__}: Error scale factors are only allowed for integer weights.")
             raise ValueError("Error scale factors are only allowed for integer weights.")
